@@ -120,6 +120,9 @@ func vfH_upgrade_logic() {
 	if vfParam("tier", 0) >= 1 {
 		d2 = vfChoose(13)
 	}
+	if d2 == d1 {
+		d2 = 12 // the same dimension twice is the single-dimension case
+	}
 	for _, d := range []int{d1, d2} {
 		switch d {
 		case 0: // method
@@ -275,6 +278,7 @@ func vfH_upgrade_logic() {
 			}
 		case 9: // extension offers / EnableCompression
 			u.EnableCompression = vfChoose(2) == 1
+			in.offersPMD = false
 			switch vfChoose(4) {
 			case 0:
 				in.extLines = []string{"permessage-deflate"}
